@@ -1,7 +1,7 @@
 """C04 - uniform integer ranges: always inside the range and exactly unbiased."""
 from . import common as C, gen_int as G, oracles as O
 
-LEAN_MODULE = ["Urandom.Props.C04", "Urandom.Props.C04T", "Urandom.Props.C04D"]
+LEAN_MODULE = ["Urandom.Props.C04", "Urandom.Props.C04T", "Urandom.Props.C04D", "Urandom.Props.C04R"]
 RULE = ("requests: 10 integer types x {try, sampler, new, from, Random::range} x range classes (full type, one wide, sign crossing, empty/reversed, "
         "touching the type's ends, ~half the type, power of two, random) x words placed AT the theoretical acceptance thresholds (v0-1, v0, v0+q-1, v0+q, "
         "a rejected word followed by an accepted one) computed from the Lemire interval theorem; Random::index and Dice likewise. "
